@@ -16,7 +16,7 @@ import FqModel.C11Print
     args 476-484, ifelifs/ifelse 486-504, trycatch 506-514, objectkeyvals/objectkeyval/objectkey/objectval 516-558
   Not modelled (the harness keeps such token sequences out of the `pp` cases): `term '.' suffix` (`a.[0]`, which
   prints without the dot), a trailing comma in an object, a program consisting only of definitions, directives
-  (module/import/include; they are handled by the JSON-level model and the `rt` cases).
+  (module/import/include: see FqModel/C11Dir.lean).
   The `try` body and handler are `expr` in the grammar, but the precedences (tokTry/tokCatch above every operator)
   make the parser reduce before any binary operator: they are terms.
 
